@@ -75,8 +75,17 @@ class InterpND:
             tmp = self.z.__getitem__(j)
             # print(self.int_all[i], self.z, j, tmp)
             self.int_all[i] = tmp
-        self.int_all = self.int_all / (2**self.n_dim)
+        self.int_all = self.int_all / (2**self.n_dim) * self.cell_volume()
         self.int_step = np.cumsum(self.int_all.flatten())
+
+    def cell_volume(self):
+        """volume of every cell, shape (n_1 - 1, ..., n_d - 1)"""
+        vol = 1.0
+        for i, x in enumerate(self.xs):
+            shape = [1] * self.n_dim
+            shape[i] = -1
+            vol = vol * np.reshape(np.diff(x), shape)
+        return vol
 
     def generate(self, N):
         x = np.sqrt(np.random.random((N, self.n_dim)))
@@ -145,7 +154,8 @@ class InterpNDHist:
         self.n_bins = 1
         for i in self.xs:
             self.n_bins *= i.shape[0] - 1
-        self.int_step = np.cumsum(self.coeffs.flatten())
+        vol = InterpND.cell_volume(self)
+        self.int_step = np.cumsum((self.coeffs * vol).flatten())
 
     def generate(self, N):
         x = np.random.random((N, self.n_dim))
